@@ -389,6 +389,63 @@ fn case(rng: &mut Rng, pool: &Pool, rep: &mut Report, case_no: u64) {
     }
 }
 
+/// The builder is formatted from the destructor of a thread-local value while its thread exits
+/// (a "report on exit" holder): formatting never panics, wherever it is called from, and says
+/// the same as before.
+fn format_at_thread_exit(rng: &mut Rng, rep: &mut Report, case_no: u64) {
+    use std::cell::RefCell;
+    use std::sync::mpsc;
+    struct Holder {
+        builder: DispatcherBuilder<'static, 'static>,
+        tx: mpsc::Sender<Result<String, String>>,
+    }
+    impl Drop for Holder {
+        fn drop(&mut self) {
+            let b = &self.builder;
+            let r = catch_unwind(AssertUnwindSafe(|| format!("{:?}", b)));
+            let _ = self.tx.send(r.map_err(|p| payload_str(&*p)));
+        }
+    }
+    thread_local! {
+        static HOLD: RefCell<Option<Holder>> = const { RefCell::new(None) };
+    }
+    let mut c = cfg_for(Profile::Names, rng);
+    c.n = (2, 8);
+    c.p_batch = 0;
+    let plan = gen_with(rng, &c);
+    rep.evaluations += 1;
+    let ctx = Ctx::new(plan.n_uids().max(1), 16);
+    let (tx, rx) = mpsc::channel();
+    let (plan2, ctx2) = (plan.clone(), ctx.clone());
+    let first = std::thread::spawn(move || {
+        let builder = crate::sys::instantiate(&plan2, &ctx2, None);
+        // the holder's thread-local slot exists before the library formats anything on this thread
+        HOLD.with(|h| *h.borrow_mut() = Some(Holder { builder, tx }));
+        HOLD.with(|h| h.borrow().as_ref().map(|x| format!("{:?}", x.builder)))
+        // the thread ends here: its thread-local values are destroyed, the holder among them
+    })
+    .join();
+    rep.metric("builders_formatted_at_thread_exit", 1);
+    let first = match first {
+        Ok(Some(t)) => t,
+        _ => {
+            rep.violation("format_panics", "formatting a builder on a fresh thread panicked", case_no, J::obj().set("plan", plan.to_json()));
+            return;
+        }
+    };
+    match rx.recv_timeout(std::time::Duration::from_secs(8)) {
+        Ok(Ok(t)) => {
+            if t != first {
+                rep.violation("spellings_differ", "the builder formatted from a thread-local destructor at thread exit reads differently from the same builder formatted a moment earlier", case_no, J::obj().set("plan", plan.to_json()).set("text", first).set("text_at_exit", t));
+            } else {
+                rep.nontrivial(mix(plan.hash(), 0xe817));
+            }
+        }
+        Ok(Err(p)) => rep.violation("format_panics:at_thread_exit", &format!("formatting the builder from the destructor of a thread-local value at thread exit panicked: {}", p), case_no, J::obj().set("plan", plan.to_json())),
+        Err(_) => rep.inconclusive += 1,
+    }
+}
+
 pub fn run(args: &Args) -> i32 {
     let mut rep = Report::new(args);
     let pool = crate::sys::make_pool(1);
@@ -402,6 +459,10 @@ pub fn run(args: &Args) -> i32 {
             break;
         }
         let mut rng = Rng::new(args.case_seed(c));
+        if c % 500 == 77 {
+            guard_case(&mut rep, c, |rep| format_at_thread_exit(&mut rng, rep, c));
+            continue;
+        }
         guard_case(&mut rep, c, |rep| case(&mut rng, &pool, rep, c));
     }
     rep.finish();
